@@ -522,6 +522,7 @@ type candObs struct {
 	cls       int
 	clsErr    string
 	fatal     string
+	refused   string // the real proposer refused a vote list that is a valid commit of the parent
 }
 
 func (f *fixture) evalCandidate(sp *candSpec, sub int64) (o candObs) {
@@ -535,10 +536,13 @@ func (f *fixture) evalCandidate(sp *candSpec, sub int64) (o candObs) {
 	}()
 	par := f.tip
 	if sp.Mid != nil {
-		mv, _ := f.buildVotes(sp.Mid.Votes, sp.Mid.Round, f.tip, rnd)
+		mv, mtruth := f.buildVotes(sp.Mid.Votes, sp.Mid.Round, f.tip, rnd)
 		mid, err := f.propose(f.tip.id, mv)
 		if err != nil {
 			o.fatal = "mid proposal: " + err.Error()
+			if g, _ := votesGood(f.tip, mtruth); g {
+				o.refused = fmt.Sprintf("Propose on the block of height %d refuses a vote list that is a valid commit of it: %v", f.tip.height, err)
+			}
 			return
 		}
 		live = append(live, mid)
@@ -550,6 +554,9 @@ func (f *fixture) evalCandidate(sp *candSpec, sub int64) (o candObs) {
 	honest, err := f.propose(par.id, hv)
 	if err != nil {
 		o.fatal = "honest proposal: " + err.Error()
+		if g, _ := votesGood(par, truth); g {
+			o.refused = fmt.Sprintf("Propose on the block of height %d refuses a vote list that is a valid commit of it: %v", par.height, err)
+		}
 		return
 	}
 	live = append(live, honest)
@@ -1006,13 +1013,14 @@ func quorum(n int) int {
 }
 
 type plan struct {
-	nval   int
-	name   string
-	length int
-	ts1    *int64 // timestamp of block 1 (nil: the proposer's 0)
-	base   int64  // first vote timestamps
-	step   int64  // growth per height
-	txAt   map[int]string
+	nval     int
+	name     string
+	length   int
+	ts1      *int64 // timestamp of block 1 (nil: the proposer's 0)
+	base     int64  // first vote timestamps
+	step     int64  // growth per height
+	txAt     map[int]string
+	fullAt   map[int]bool      // heights at which the whole candidate catalogue runs (nil: everywhere); elsewhere a short list
 	votersAt func(h int) []int // wallets entitled to vote for the block at height h (h >= 1), as the plan expects
 }
 
@@ -1080,12 +1088,12 @@ func genCandidates(c *hxlib.Ctx) {
 	}
 	nE := 5 + r.Intn(3)
 	plans := []*plan{
-		{nval: 4, name: "n4", length: 4, base: 1000000, step: 1000, votersAt: fixedVoters(4)},
-		{nval: 1, name: "n1", length: 3, base: 50, step: 10, votersAt: fixedVoters(1)},
-		{nval: 2, name: "n2", length: 3, base: 1, step: 3, votersAt: fixedVoters(2)},
-		{nval: 3, name: "n3neg", length: 3, ts1: ptr64(-100000), base: -99000, step: 500, votersAt: fixedVoters(3)},
+		{nval: 4, name: "n4", length: 4, base: 1000000, step: 1000, votersAt: fixedVoters(4), fullAt: map[int]bool{1: true, 2: true, 4: true}},
+		{nval: 1, name: "n1", length: 3, base: 50, step: 10, votersAt: fixedVoters(1), fullAt: map[int]bool{2: true}},
+		{nval: 2, name: "n2", length: 3, base: 1, step: 3, votersAt: fixedVoters(2), fullAt: map[int]bool{2: true}},
+		{nval: 3, name: "n3neg", length: 3, ts1: ptr64(-100000), base: -99000, step: 500, votersAt: fixedVoters(3), fullAt: map[int]bool{2: true, 3: true}},
 		{nval: nE, name: "nE", length: 6, base: 1700000000000000, step: 2000000,
-			txAt: map[int]string{2: "validators:0,1,2,3", 4: "version:3"},
+			txAt: map[int]string{2: "validators:0,1,2,3", 4: "version:3"}, fullAt: map[int]bool{1: true, 2: true, 5: true, 6: true},
 			votersAt: func(h int) []int {
 				// a validators transaction of block 2 shows in NextValidators of block 3: voters of block 4 and up
 				n := nE
@@ -1098,8 +1106,8 @@ func genCandidates(c *hxlib.Ctx) {
 				}
 				return v
 			}},
-		{nval: 4, name: "n4big", length: 3, ts1: ptr64(big62 - 1000), base: big62 - 500, step: 300, votersAt: fixedVoters(4)},
-		{nval: 0, name: "n0", length: 2, ts1: ptr64(-7), base: 0, step: 0, votersAt: fixedVoters(0)},
+		{nval: 4, name: "n4big", length: 3, ts1: ptr64(big62 - 1000), base: big62 - 500, step: 300, votersAt: fixedVoters(4), fullAt: map[int]bool{2: true, 3: true}},
+		{nval: 0, name: "n0", length: 2, ts1: ptr64(-7), base: 0, step: 0, votersAt: fixedVoters(0), fullAt: map[int]bool{2: true}},
 	}
 	if c.Tier == "thorough" {
 		for i := 0; i < 6; i++ {
@@ -1111,6 +1119,21 @@ func genCandidates(c *hxlib.Ctx) {
 	for _, p := range plans {
 		runPlan(c, p)
 	}
+}
+
+// the candidates tried at the heights that do not get the whole catalogue
+var shortList = []string{"honest", "height:-1", "height:+1", "prev:random", "prev:sibling", "version:wrap3", "version:hdr3",
+	"ts:delta-1", "ts:delta+1", "ts:parent", "ts:upper-middle", "exec:", "votes:one-short", "votes:permuted",
+	"votes:foreign-signer", "votes:for-block-below", "votes:duplicate-voter", "median:parent+0", "median:parent+1",
+	"multi:votes+ts", "live-parent:honest"}
+
+func inShortList(label string) bool {
+	for _, s := range shortList {
+		if label == s || strings.HasPrefix(label, s) {
+			return true
+		}
+	}
+	return false
 }
 
 func runPlan(c *hxlib.Ctx, p *plan) {
@@ -1129,6 +1152,10 @@ func runPlan(c *hxlib.Ctx, p *plan) {
 		kind := "cand-" + strings.SplitN(sp.Label, ":", 2)[0]
 		if o.fatal != "" {
 			c.Note("%s h%d %s: %s", p.name, f.tip.height+1, sp.Label, o.fatal)
+			if o.refused != "" {
+				c.Emit(hxlib.Case{Kind: "propose-refused", Input: in, Nontrivial: true, OracleErr: o.refused,
+					Key: fmt.Sprintf("%s/%d/%s", p.name, f.tip.height, sp.Label)})
+			}
 			return
 		}
 		msg := oracle(&sp, &o)
@@ -1171,7 +1198,11 @@ func runPlan(c *hxlib.Ctx, p *plan) {
 		n := len(voters)
 		k := quorum(n)
 		base := stepSpec{Votes: cloneVotes(honest.Votes), Round: honest.Round}
+		light := p.fullAt != nil && !p.fullAt[h]
 		mk := func(label string, mod func(sp *candSpec)) {
+			if light && !inShortList(label) {
+				return
+			}
 			sp := candSpec{Base: base, Label: label}
 			mod(&sp)
 			emit(sp)
@@ -1339,6 +1370,9 @@ func runPlan(c *hxlib.Ctx, p *plan) {
 				vnext := p.votersAt(h)
 				gv := votesWithMedian(vnext, quorum(len(vnext)), midTS+7, r)
 				mkMid := func(label string, mod func(sp *candSpec)) {
+					if light && !inShortList(label) {
+						return
+					}
 					sp := candSpec{Mid: &mid, Base: stepSpec{Votes: gv, Round: 1}, Label: label}
 					mod(&sp)
 					emit(sp)
@@ -1363,6 +1397,10 @@ func runPlan(c *hxlib.Ctx, p *plan) {
 		}
 		if err := f.extend(st); err != nil {
 			c.Note("%s: cannot extend to height %d: %v", p.name, h, err)
+			steps := append(append([]stepSpec{}, chain...), st)
+			c.Emit(hxlib.Case{Kind: "chain-stuck", Nontrivial: true, Key: fmt.Sprintf("%s/%d", p.name, h),
+				Input:     map[string]interface{}{"t": "chain", "nval": p.nval, "steps": steps},
+				OracleErr: fmt.Sprintf("an honest chain cannot be extended to height %d (%d validators): %v", h, p.nval, err)})
 			return
 		}
 		chain = append(chain, st)
@@ -1414,10 +1452,27 @@ func replay(raw json.RawMessage) string {
 			return "cannot rebuild the chain: " + err.Error()
 		}
 		o := f.evalCandidate(&sp, in.Sub)
+		if o.refused != "" {
+			return o.refused
+		}
 		if o.fatal != "" {
 			return "cannot rebuild the candidate: " + o.fatal
 		}
 		return oracle(&sp, &o)
+	case "chain":
+		var ch struct {
+			NVal  int        `json:"nval"`
+			Steps []stepSpec `json:"steps"`
+		}
+		if err := json.Unmarshal(raw, &ch); err != nil {
+			return "bad replay input: " + err.Error()
+		}
+		f, err := buildChain(ch.NVal, ch.Steps)
+		defer f.close()
+		if err != nil {
+			return fmt.Sprintf("an honest chain cannot be extended (%d validators): %v", ch.NVal, err)
+		}
+		return ""
 	}
 	return "unknown case type " + in.T
 }
@@ -1427,7 +1482,7 @@ var _ = hex.EncodeToString
 func main() {
 	log.GlobalLogger().SetOutput(io.Discard)
 	hxlib.Main(hxlib.Spec{
-		ID: "C07",
+		ID:   "C07",
 		Rule: "fixture chains (1,2,3,4,5-7 and 0 validators; negative, clock-sized and near-2^62 timestamps; a validator-set change and a next-block-version change) built on a real test node with votes signed by harness wallets; at every height the honest next block is re-encoded with one deviation (height -1/+1/+2/0, previous id random/grandparent/sibling/empty, header or Version() 1/3, timestamp +-1/parent's/parent's+1/0/lower/upper middle/floor mean, vote list permuted/other round/exact quorum/one short/none/foreign signer/other block/other height/other time/other round/garbage/duplicate/extra item, wrong next-validators hash), with honest-form vote lists whose median is the parent's timestamp -1/0/+1/+2, with 2-3 deviations, and as child of a live block; each candidate goes to verifyNewBlock with the explicit parent (CVerify) and through Import/ImportBlock (CImport); plus Timestamp() of vote lists with fixed boundary and random timestamps incl. negative, near-int64-limit and near-2^62 values (CMedian). non-trivial = every candidate that reaches the manager (header version 2) and every median list of >= 2 items; distinct = distinct Coq case term",
 		Gen:  gen, Replay: replay,
 	})
